@@ -129,7 +129,7 @@ AllGroups == {
   G("q-opened",      {"openmin", "openrich", "openodd", "heading", "para", "style", "list"}, {}, {"Save"}, Reg, "none", 0, 0, 2, 1),
   G("q-odd-sweep",   {"openodd"}, {}, {"Save"}, {"newdir"}, "sweep", 100, 32, 1, 1),
   G("q-spelt-sweep", {"para"}, {}, {"Save"}, {"linkdotdot", "linktofile", "relative"}, "sweep", 24, 8, 1, 1),
-  GC("q-conc",       {"para", "table", "image", "openmin", "longtext"}, Reg, 24, {1, 3}, 1),
+  GC("q-conc",       {"para", "table", "image", "openmin", "longtext"}, Reg, 32, {1, 3}, 1),
   G("q-random",      AllDoc, {}, {"Save"}, {"newdir", "existing", "device", "resave"}, "sweep", 60, 32, 8, 2),
   \* thorough tier
   G("t-sweep-all",   SmallDoc, {}, {"Save"}, Reg, "sweep", 0, 0, 1, 1),
